@@ -11,6 +11,7 @@ Decided:
          ledger; dates are formatted with the report's time format (project format as fallback); empty for None
   R18.5  rows: task list sorted by sequence number, leaf filter control dependent on leafTasksOnly, one
          body line per task of the list, one cell per column
+  R18.12 the report's own time format is honoured whatever it spells (no literal sentinel decides the fall-back to the project format)
   R18.6  row filters are interpreted: a filter stored as text is not decided by the truthiness of its spelling
   R18.8  no class-/module-level container is written while a report is generated (rendered values are not remembered)
   R18.7  every Report.generate() rebuilds the intermediate table before any format writer runs
@@ -37,7 +38,7 @@ META = {
                    "filter dispatch is checked for text-typed filters."
                    " Also: dominance of the table rebuild over every format writer, no loop editing the list it iterates, structure of the ledger scan in getCost, sibling agreement of allocation forms between booking and cost code, kind-preserving sort key, uninterpreted filter text (known finding F57) and the shared-container census under report generation."
                    " Round 3: the file writers receive the rendering itself, not a selection of its rows."
-                   " Round 4: fresh content generator per generation, case folding of case-insensitive terminals, memo rules under report generation. Round 8: JSON and CSV select body rows by the same tests; no early exit of the intermediate-format builder on the previous content.",
+                   " Round 4: fresh content generator per generation, case folding of case-insensitive terminals, memo rules under report generation. Round 8: JSON and CSV select body rows by the same tests; no early exit of the intermediate-format builder on the previous content. The report's own time format is never compared with a literal format to decide the fall-back (known finding F79).",
     "assumptions": [],
 }
 
@@ -369,6 +370,35 @@ def run(ctx: Ctx):
     ok = "str:timeFormat" in dfv and "pattr:timeformat" in dfv and "call:strftime" in dfv and "call:a" in dfv
     ctx.ob("R18.4", f"{fv.qual}: dates use the report / project time format", fv, ok, "strftime(report timeFormat | project timeformat)" if ok else
            "date cells are not rendered with the effective time format", key="R18.4|_format_value|timeformat")
+    # R18.12 the report's own time format is honoured whatever it spells: the fall-back to the project format is not decided by
+    # comparing the format with a literal that is also a legal user value (a sentinel collision: `timeformat "%Y-%m-%d"` on the
+    # report is taken for "not set")
+    from ..order import local_resolver as _lr18
+    res18 = _lr18(fv.node)
+
+    def is_report_format(e):
+        if "timeFormat" in norm(e):
+            return True
+        return isinstance(e, ast.Name) and any("timeFormat" in norm(d_) for d_ in res18(e))
+    sentinels = []
+    for i in own_nodes(fv):
+        if isinstance(i, (ast.If, ast.IfExp)):
+            for c_ in ast.walk(i.test):
+                if isinstance(c_, ast.Compare) and len(c_.ops) == 1 and isinstance(c_.ops[0], (ast.Eq, ast.NotEq, ast.In, ast.NotIn)):
+                    sides = [c_.left, c_.comparators[0]]
+                    if any(is_report_format(x) for x in sides) and any(
+                            isinstance(k_, ast.Constant) and isinstance(k_.value, str) and k_.value for x in sides
+                            if not is_report_format(x) for k_ in ast.walk(x)):
+                        sentinels.append(c_)
+    for c_ in sentinels:
+        ctx.ob("R18.12", f"{fv.qual}: the report's time format is compared with a literal format: {norm(c_)}", (fv, c_), False,
+               f"`{norm(c_)}` treats one legal format as 'not set': a report that asks for exactly that format gets the project's instead",
+               key="R18.12|_format_value|sentinel " + ",".join(sorted({k_.value for x in (c_.left, c_.comparators[0]) for k_ in ast.walk(x)
+                                                                      if isinstance(k_, ast.Constant) and isinstance(k_.value, str) and k_.value})))
+    if not sentinels:
+        ctx.ob("R18.12", f"{fv.qual}: the report's time format is not compared with a literal format", fv, True,
+               "the report's format decides, whatever it spells", key="R18.12|_format_value|no sentinel")
+    ctx.floor("R18.12", 1)
     none_empty = any(isinstance(i, ast.If) and norm(i.test) == "value is None" and any(isinstance(s, ast.Return) and isinstance(s.value, ast.Constant) and s.value.value == "" for s in i.body)
                      for i in own_nodes(fv))
     ctx.ob("R18.4", f"{fv.qual}: None -> empty cell", fv, none_empty, "unscheduled tasks show empty dates" if none_empty else
